@@ -3,6 +3,7 @@ From CRNG Require Import Base.ListX Base.Bytes Model.Plain Check.Common.
 Inductive c12_case :=
 | KPlain (script : list rres) (lines : list bytes) (st : N)      (* observed lines and status code *)
 | KUdp (body : bytes) (lines : list bytes)
+| KUdpBurst (bodies : list bytes) (lines : list bytes)   (* datagrams in arrival order: each is a stream of its own *)
 | KAmqp (body : bytes) (lines : list bytes).
 
 Definition status_code (s : status) : N :=
@@ -15,5 +16,7 @@ Definition c12_verdict (c : c12_case) : N :=
       let '(ml, ms) := plain_fast script in    (* = plain script, Proofs.PlainProofs.plain_fast_eq *)
       if list_eqb beqb ml lines && (status_code ms =? st) then 0 else 2
   | KUdp body lines => if list_eqb beqb (fst (plain_fast [RData body; REof])) lines then 0 else 2
+  | KUdpBurst bodies lines =>
+      if list_eqb beqb (concat (map (fun body => fst (plain_fast [RData body; REof])) bodies)) lines then 0 else 2
   | KAmqp body lines => if list_eqb beqb (amqp_lines_fast body) lines then 0 else 2
   end.
